@@ -255,6 +255,8 @@ def generate(seed, h, tier):
             # baselines down to fractions of a billion kcal a month (documented override route)
             j["options"]["crop_kcals"] = float(workload.row_of(j["iso3"])["crop_kcals"]) * sm.pick([0.5, 0.1, 0.03])
         hb.add(j)
+    # schedule: in ~30 % of the histories every scenario is prepared before any is computed
+    hb.spec["interleave"] = rng.sub("schedule").chance(0.3)
     return hb.spec
 
 
